@@ -14,6 +14,7 @@ import DosModel.Proofs.MontInvert
 import DosModel.Proofs.AsmMul
 import DosModel.Proofs.MontMulxRedc
 import DosModel.Proofs.Bn256Prime
+import DosModel.Proofs.Bn256FieldIso
 import DosModel.Model.AsmBn256
 import DosModel.Model.Bn256Field
 
@@ -106,6 +107,21 @@ decode(Invert f) · decode(f) ≡ 1 (mod p) -/
 theorem invert_is_inverse (f : GFp) (hf : f.v < Bn256.p) (hf0 : f.v ≠ 0) :
     ((GFp.invert f).v * GFp.rN1.v) * (f.v * GFp.rN1.v) ≡ 1 [MOD Bn256.p] :=
   invert_inverse (consts_p2_is_P.1 ▸ Dos.Prime.P_prime) f hf hf0
+
+/-- **gfP with the operations of the assembly is the prime field**: Montgomery decoding `dec x = x·R⁻¹` into
+`ZMod p` (a field, since p is prime) is injective on reduced values, every operation keeps values reduced, and
+gfpAdd / gfpSub / gfpNeg / gfpMul / gfP{0} / newGFp(1) / gfP.Invert are +, −, unary −, ·, 0, 1, ⁻¹ of the field.
+(The tower, curve and scalar-multiplication theorems of Props/C10Tower.lean and Props/C10Curve.lean hold over
+every field, in particular over this one.) -/
+theorem gfP_is_prime_field (a b : GFp) (ha : a.v < Bn256.p) (hb : b.v < Bn256.p) :
+    ((a + b).v < Bn256.p ∧ dec (a + b) = dec a + dec b) ∧
+    ((a - b).v < Bn256.p ∧ dec (a - b) = dec a - dec b) ∧
+    ((-a).v < Bn256.p ∧ dec (-a) = -dec a) ∧
+    ((a * b).v < Bn256.p ∧ dec (a * b) = dec a * dec b) ∧
+    ((a⁻¹).v < Bn256.p ∧ dec a⁻¹ = (dec a)⁻¹) ∧
+    dec 0 = 0 ∧ ((1 : GFp).v < Bn256.p ∧ dec 1 = 1) ∧ (dec a = dec b → a = b) :=
+  ⟨dec_add a b ha hb, dec_sub a b ha hb, dec_neg a ha, dec_mul a b ha hb, dec_inv a ha, dec_zero, dec_one,
+   dec_injective a b ha hb⟩
 
 /-! ## 3. the interpreted assembly (regenerated listing of gfp.s) -/
 
